@@ -412,8 +412,11 @@ def check_product_accounting(r, repo, rule="R12.3", sizes=(1, 2, 3)):
 
     sink = []
 
+    sink_size = []
+
     def renormalize(ctx, seq, *rest, **kw):
         sink.append(list(seq))
+        sink_size.append(kw.get("size", rest[2] if len(rest) > 2 else None))
         return list(seq)
 
     n_ob = 0
@@ -445,6 +448,7 @@ def check_product_accounting(r, repo, rule="R12.3", sizes=(1, 2, 3)):
             for nm, impl in (("two_prod", two_prod), ("vecsum", vecsum), ("renormalize", renormalize)):
                 I.globals_cache[(AP, nm)] = impl
             del sink[:]
+            del sink_size[:]
             fresh[0] = 0
             clo = Closure(fn, {}, I, AP, bound_self=None)
             try:
@@ -455,9 +459,14 @@ def check_product_accounting(r, repo, rule="R12.3", sizes=(1, 2, 3)):
                 raise AnalysisError(f"{AP}::{fname} {tag}: renormalize is reached {len(sink)} times, expected once")
             got = sum(sink[0], Poly.const(0))
             ok = got == want
+            # the size limit handed on is the caller's: no limit requested, none imposed (a default derived from the operand lengths
+            # silently truncates the exact sum / difference, which can need len(seq1) + len(seq2) terms)
+            size_ok = sink_size[0] == kw.get("size")
             n_ob += 1
-            r.ob(rule, f"{AP}::{fname} {tag} functional={functional}", ok,
-                 "" if ok else f"the terms handed to renormalize sum to {got!r}; the exact result is {want!r}; difference {got - want!r}", loc(AP, fn))
+            r.ob(rule, f"{AP}::{fname} {tag} functional={functional}", ok and size_ok,
+                 (f"the terms handed to renormalize sum to {got!r}; the exact result is {want!r}; difference {got - want!r}" if not ok else
+                  f"renormalize is called with size={sink_size[0]!r} although the caller asked for size={kw.get('size')!r}: the result is truncated to that many terms, "
+                  "so it no longer equals the exact result whenever that needs more terms"), loc(AP, fn))
     return n_ob
 
 
